@@ -5,6 +5,7 @@
 -/
 import CM.Proofs.Correct
 import CM.Proofs.Decode
+import CM.Proofs.CorrectC
 namespace CM
 
 /-- `GraphOK`, decided node by node -/
@@ -101,5 +102,38 @@ theorem plainB_sound (g : Graph) (d : DenCfg) (h : g.plainB d = true) : Plain g 
     rw [node_eq_of_getElem? g n nd hn, he] at this
     simp only [Bool.and_eq_true, Bool.not_eq_true'] at this
     exact call_pure d n f pos kwn kwv this.2.1 this.2.2
+
+
+/-- `GraphOKC`, decided -/
+def Graph.okCB (g : Graph) : Bool :=
+  (List.range g.nodes.length).all fun n =>
+    (g.node n).parents.all (· < n) &&
+    (match (g.node n).edge with
+     | some e => e.wf || (match e with | .cache _ => true | _ => false)
+     | none => true) &&
+    (!g.usedInputs.contains n || (g.node n).edge.isNone)
+
+theorem okCB_sound (g : Graph) (h : g.okCB = true) : GraphOKC g := by
+  simp only [Graph.okCB, List.all_eq_true, List.mem_range, Bool.and_eq_true] at h
+  have lt : ∀ n nd, g.nodes[n]? = some nd → n < g.nodes.length := by
+    intro n nd hn
+    exact (List.getElem?_eq_some_iff.mp hn).1
+  refine { topo := ?_, inputsLeaves := ?_, wfc := ?_ }
+  · intro n nd hn p hp
+    have := (h n (lt n nd hn)).1.1
+    rw [node_eq_of_getElem? g n nd hn] at this
+    simpa using this p hp
+  · intro n nd hn hu
+    have := (h n (lt n nd hn)).2
+    rw [node_eq_of_getElem? g n nd hn, hu] at this
+    simpa using this
+  · intro n nd e hn he
+    have := (h n (lt n nd hn)).1.2
+    rw [node_eq_of_getElem? g n nd hn, he] at this
+    simp only [Bool.or_eq_true] at this
+    rcases this with h1 | h2
+    · exact .inl h1
+    · cases e <;> simp at h2
+      exact .inr ⟨_, rfl⟩
 
 end CM
